@@ -230,6 +230,7 @@ type live4 struct {
 	l   *server.VerifListener4
 	cur in4
 	yi  net.IP
+	pad int // > 0: the reply is padded (site-specific options 224...) to a message of exactly this many bytes
 }
 
 func newLive4(bound int) *live4 {
@@ -257,6 +258,20 @@ func newLive4(bound int) *live4 {
 			case "nil":
 				return nil, true
 			}
+			for code := uint8(224); ll.pad > 0 && code < 254; code++ {
+				need := ll.pad - len(resp.ToBytes())
+				if need <= 0 {
+					break
+				}
+				n := need - 2
+				if n > 255 {
+					n = 255
+				}
+				if n < 0 {
+					n = 0
+				}
+				resp.Options[code] = bytes.Repeat([]byte{code}, n)
+			}
 			return resp, false
 		},
 	}
@@ -267,8 +282,18 @@ func newLive4(bound int) *live4 {
 // feed4 sends one abstract input through HandleMsg4 and records the outcome.
 func feed4(t *Trace, in in4, r *rand.Rand, evname string) { feed4on(t, nil, in, r, evname) }
 
+var rawOverride []byte // feed4raw: these bytes instead of the ones the abstract input stands for
+
+func feed4raw(t *Trace, ll *live4, in in4, b []byte) {
+	rawOverride = b
+	feed4on(t, ll, in, rand.New(rand.NewSource(int64(len(b)))), "d4")
+}
+
 func feed4on(t *Trace, ll *live4, in in4, r *rand.Rand, evname string) {
 	b, yi := datagram4(in, r)
+	if rawOverride != nil {
+		b, rawOverride = rawOverride, nil
+	}
 	if ll == nil {
 		ll = newLive4(in.bound)
 	}
@@ -292,7 +317,7 @@ func feed4on(t *Trace, ll *live4, in in4, r *rand.Rand, evname string) {
 	e := Ev{"ev": evname, "in": in.ev(), "parsed": perr == nil, "panic": pan != nil}
 	out := Ev{"sent": false, "n": 0, "type": -1, "opcode": -1, "eqxid": false, "eqhtype": false, "eqchaddr": false, "eqflags": false,
 		"eqgiaddr": false, "eqrai": false, "eqcid": false, "pgi": false, "pbc": false, "pci": false, "pyi": false, "port": 0, "ifindex": 0,
-		"woob": false, "l2": false, "frame": false, "fdmac": false, "fdip": false, "fsport": 0, "fdport": 0, "fif": 0, "fsmac": false, "fwire": false, "fpay": false}
+		"woob": false, "l2": false, "frame": false, "fdmac": false, "fdip": false, "fsport": 0, "fdport": 0, "fif": 0, "fsmac": false, "fwire": false, "fpay": false, "fexpected": false, "size": 0}
 	capt.mu.Lock()
 	sent := append([]server.VerifSent4(nil), capt.s4...)
 	frames := capt.frames
@@ -306,6 +331,7 @@ func feed4on(t *Trace, ll *live4, in in4, r *rand.Rand, evname string) {
 		out["sent"] = true
 		out["type"] = int(s.Resp.MessageType())
 		out["opcode"] = int(s.Resp.OpCode)
+		out["size"] = len(s.Resp.ToBytes())
 		out["eqxid"] = s.Resp.TransactionID == req.TransactionID
 		out["eqhtype"] = s.Resp.HWType == req.HWType
 		out["eqchaddr"] = bytes.Equal(s.Resp.ClientHWAddr, req.ClientHWAddr)
@@ -325,6 +351,12 @@ func feed4on(t *Trace, ll *live4, in in4, r *rand.Rand, evname string) {
 			out["ifindex"] = s.Woob.IfIndex
 		}
 		out["l2"] = s.L2
+		// a link-level reply on an interface that exists, to a 6-byte hardware address: a frame must have been built
+		if s.L2 && capt.l2real && s.Woob != nil && len(req.ClientHWAddr) == 6 {
+			if x, err := net.InterfaceByIndex(s.Woob.IfIndex); err == nil && len(x.HardwareAddr) == 6 {
+				out["fexpected"] = true
+			}
+		}
 		if len(frames) == 1 {
 			pkt := gopacket.NewPacket(frames[0], layers.LayerTypeEthernet, gopacket.Default)
 			eth, _ := pkt.Layer(layers.LayerTypeEthernet).(*layers.Ethernet)
@@ -406,6 +438,24 @@ func frameWireOK(frame []byte, ip *layers.IPv4, udp *layers.UDP) bool {
 func runD4(t *Trace, seed int64, full bool, shard, shards int) {
 	k := 0
 	take := func() bool { k++; return k%shards == shard }
+	// what a receive buffer still holds from EARLIER datagrams is not part of the datagram: every prefix of a valid request that
+	// does not parse on its own must stay unanswered, also right after a longer valid request went through the same buffer
+	// (no poisoning of recycled buffers here: real servers have real stale bytes)
+	if shard == 0 {
+		keep := server.VerifBufPutHook
+		server.VerifBufPutHook = nil
+		ll := newLive4(0)
+		r := rand.New(rand.NewSource(seed * 4409))
+		good, _ := datagram4(in4{parse: true, op: 1, mt: 1, gi: "zero", ci: "zero", final: "base", yi: true, bound: 0, oobif: 7, hlen: 6}, r)
+		for cut := 0; cut < len(good); cut += 1 + cut/60 {
+			if _, err := dhcpv4.FromBytes(good[:cut]); err == nil {
+				continue // still a message on its own
+			}
+			feed4on(t, ll, in4{parse: true, op: 1, mt: 1, gi: "zero", ci: "zero", final: "base", yi: true, bound: 0, oobif: 7, hlen: 6}, r, "d4")
+			feed4raw(t, ll, in4{parse: false, op: 1, mt: 1, gi: "zero", ci: "zero", final: "base", yi: true, bound: 0, oobif: 7, hlen: 6}, good[:cut])
+		}
+		server.VerifBufPutHook = keep
+	}
 	// a long-running process (see runD6): 300 requests that end in "nil and stop", then requests that must be answered
 	{
 		ll := newLive4(0)
@@ -538,6 +588,23 @@ func runD4Addr(t *Trace, seed int64, reps int) {
 					}
 				}
 			}
+		}
+	}
+	// link-level replies of every size up to what fits the interface: the 14 sizes just below the MTU (IP packet = message + 28
+	// bytes; the Ethernet header does not count against the MTU), and some ordinary ones
+	if capt.l2real {
+		if x, err := net.InterfaceByIndex(ifA); err == nil && x.MTU >= 576 {
+			sizes := []int{300, 301, 548, 576, 1000}
+			for d := 0; d <= 16; d++ {
+				sizes = append(sizes, x.MTU-28-d)
+			}
+			ll := lives[ifA]
+			for i, sz := range sizes {
+				r := rand.New(rand.NewSource(seed*31337 + int64(i)))
+				ll.pad = sz
+				feed4on(t, ll, in4{parse: true, op: 1, mt: 1 + 2*(i%2), gi: "zero", ci: "zero", bflag: false, final: "base", yi: true, bound: ifA, oobif: 0, hlen: 6}, r, "d4")
+			}
+			ll.pad = 0
 		}
 	}
 	capt.l2real = false
